@@ -164,7 +164,7 @@ mut("c10-periodic-shift-only-first-dimension", "C05", SHI,
 
 
 def main():
-    args = sys.argv[1:]
+    args = [a for a in sys.argv[1:] if a != "--redo"]
     tier = "quick"
     if "--tier" in args:
         i = args.index("--tier"); tier = args[i + 1]; del args[i:i + 2]
@@ -174,8 +174,11 @@ def main():
     results = json.load(open(respath)) if os.path.exists(respath) else {}
     for name, prop, f, old, new, count in sel:
         scratch = "/tmp/selftest-mut-%s" % name
+        if name in results and results[name].get("verdict") == "caught" and "--redo" not in sys.argv:
+            print("%-55s %s  caught (earlier run)" % (name, prop), flush=True); continue
         shutil.rmtree(scratch, ignore_errors=True); os.makedirs(scratch)
-        shutil.copytree(os.path.join(REPO, "src"), os.path.join(scratch, "src"))
+        # the committed tree, not the working tree: seeded changes may be applied to /repo while this runs
+        subprocess.check_call("git -C %s archive HEAD src | tar -x -C %s" % (REPO, scratch), shell=True)
         p = os.path.join(scratch, f)
         s = open(p).read()
         if s.count(old) != count:
